@@ -273,6 +273,26 @@ impl TcpTransport {
     }
 }
 
+#[cfg(litep2p_verif)]
+impl TcpTransport {
+    /// The configuration this transport was constructed with (read-only; `node` area).
+    pub(crate) fn verif_config(&self) -> String {
+        let c = &self.config;
+        format!(
+            "mpd={} reuse={} nodelay={} nra={} nwb={} cot={} sot={} left={} ym={}",
+            c.max_parallel_dials,
+            c.reuse_port,
+            c.nodelay,
+            c.noise_read_ahead_frame_count,
+            c.noise_write_buffer_size,
+            c.connection_open_timeout.as_millis(),
+            c.substream_open_timeout.as_millis(),
+            c.listen_addresses.len(),
+            format!("{:?}", c.yamux_config).replace(' ', ""),
+        )
+    }
+}
+
 impl TransportBuilder for TcpTransport {
     type Config = Config;
     type Transport = TcpTransport;
